@@ -1,2 +1,18 @@
 import QmiModel.Props.C08
-#print axioms QmiModel.PubSub.init_no_subscriptions
+#print axioms QmiModel.PubSub.failed_local_subscribe_changes_nothing
+#print axioms QmiModel.PubSub.failed_reply_leaves_nothing
+#print axioms QmiModel.PubSub.failed_subscribe_leaves_nothing
+#print axioms QmiModel.PubSub.rejected_request_leaves_no_remote_subscriber
+#print axioms QmiModel.PubSub.removal_ends_publisher_side
+#print axioms QmiModel.PubSub.removal_notice_is_sent
+#print axioms QmiModel.PubSub.removal_notice_ends_subscriber_side
+#print axioms QmiModel.PubSub.disconnect_ends_this_side
+#print axioms QmiModel.PubSub.disconnect_runs_cleanup
+#print axioms QmiModel.PubSub.close_is_seen_by_other_end
+#print axioms QmiModel.PubSub.raceTrace_below
+#print axioms QmiModel.PubSub.quiescent_consistency_false
+#print axioms QmiModel.PubSub.reply_releases_waiters
+#print axioms QmiModel.PubSub.send_failure_answers_request
+#print axioms QmiModel.PubSub.closing_answers_registered_requests
+#print axioms QmiModel.PubSub.sent_request_is_registered
+#print axioms QmiModel.PubSub.subscribe_terminates_partial
